@@ -20,6 +20,7 @@ import itertools
 import os
 
 from core import fseq, fseqs, fbool, pseq, guarded
+import used
 
 PROP = "C12"
 RULE = ("exhaustive: every permutation up to the stated length for every operator / predicate / counter / family; "
@@ -185,27 +186,77 @@ def _ss_bij_impl(n, inverse):
                                fbool(all(_ltrmin(s) == _ltrmin(t) for s, t in zip(dom, img))))
 
 
+# --------------------------------------------------------------------------- used objects
+_DG = [0]
+_NEIGH = ["stack_sort", "pop_stack_sort", "bubble_sort", "quick_sort", "stack_sortable", "pop_stack_sortable",
+          "bubble_sortable", "quick_sortable", "west_2_stack_sortable", "count_inversions", "inverse", "is_increasing"]
+
+
+def _warm12(p):
+    """use the permutation object before the call under test: generic use plus neighbouring C12 operations on the
+    SAME object (three sorting operators / predicates picked by the line's digest, one named family, both
+    directions of the Simion-Schmidt map); results and exceptions are discarded"""
+    used.warm_perm(p, 0)
+    if not used.is_perm(p):
+        return
+    dg = _DG[0]
+    saved = list(_BUDGET)
+    _BUDGET[0] = _BUDGET[1] = None          # the warm-up does not draw on the pass budget of the call under test
+    try:
+        for s in (2, 7, 12):
+            used.quiet(getattr(p, _NEIGH[(dg >> s) % len(_NEIGH)]))
+        if len(p) <= 9:
+            used.quiet(getattr(PP, _FAMFN[_FAMS[(dg >> 17) % len(_FAMS)]]), p)
+        used.quiet(Bij.simion_and_schmidt, p, bool(dg & 1))
+        used.quiet(Bij.simion_and_schmidt, p, not dg & 1)
+    finally:
+        _BUDGET[0], _BUDGET[1] = saved
+
+
+def _UP(seq):
+    seq = tuple(seq)
+    return used.obj(("P", seq), lambda: Perm(seq), _warm12)
+
+
+_NOTWICE = ("ss.bij", "ss.bijinv", "ss.bad", "dgroup", "dgroup.len")
+
+
 def impl(op, a):
+    """every line with a long permutation (random streams) and a deterministic fifth (a twelfth for the costly
+    sort.all) of the short ones: the permutation is a used object and the line is evaluated twice on it"""
+    if op in _NOTWICE or not a:
+        return _impl(op, a, Perm)
+    if not (len(a[0]) >= 19 or used.sel(op, a, 12 if op == "sort.all" else 5)):
+        return _impl(op, a, Perm)
+    used.begin()
+    _DG[0] = used.digest(op, a)
+    r1 = _impl(op, a, _UP)
+    used.T.rewind()
+    r2 = _impl(op, a, _UP)
+    return r1 if r1 == r2 else used.unstable(r1, r2)
+
+
+def _impl(op, a, P):
     if op.startswith("sort.") and op != "sort.all":
-        return guarded(lambda: fseq(getattr(Perm(pseq(a[0])), _SORTS[op[5:]])()))
+        return guarded(lambda: fseq(getattr(P(pseq(a[0])), _SORTS[op[5:]])()))
     if op.startswith("dev."):          # same observable; the Lean side answers with the Spec device
-        return guarded(lambda: fseq(getattr(Perm(pseq(a[0])), _SORTS[op[4:]])()))
+        return guarded(lambda: fseq(getattr(P(pseq(a[0])), _SORTS[op[4:]])()))
     if op.startswith("able."):
-        return guarded(lambda: fbool(getattr(Perm(pseq(a[0])), _ABLE[op[5:]])()))
+        return guarded(lambda: fbool(getattr(P(pseq(a[0])), _ABLE[op[5:]])()))
     if op == "west2":
-        return guarded(lambda: fbool(Perm(pseq(a[0])).west_2_stack_sortable()))
+        return guarded(lambda: fbool(P(pseq(a[0])).west_2_stack_sortable()))
     if op == "west3":
-        return guarded(lambda: fbool(Perm(pseq(a[0])).west_3_stack_sortable()))
+        return guarded(lambda: fbool(P(pseq(a[0])).west_3_stack_sortable()))
     if op == "cnt.stack":
-        return _bounded(len(pseq(a[0])), lambda: guarded(lambda: str(Perm(pseq(a[0])).count_stack_sorts())))
+        return _bounded(len(pseq(a[0])), lambda: guarded(lambda: str(P(pseq(a[0])).count_stack_sorts())))
     if op == "cnt.pop":
-        return _bounded(len(pseq(a[0])), lambda: guarded(lambda: str(Perm(pseq(a[0])).count_pop_stack_sorts())))
+        return _bounded(len(pseq(a[0])), lambda: guarded(lambda: str(P(pseq(a[0])).count_pop_stack_sorts())))
     if op == "sort.all":
-        return _bounded(len(pseq(a[0])), lambda: guarded(lambda: _sort_all_impl(Perm(pseq(a[0])))))
+        return _bounded(len(pseq(a[0])), lambda: guarded(lambda: _sort_all_impl(P(pseq(a[0])))))
     if op == "ss.fwd":
-        return guarded(lambda: fseq(Bij.simion_and_schmidt(Perm(pseq(a[0])))))
+        return guarded(lambda: fseq(Bij.simion_and_schmidt(P(pseq(a[0])))))
     if op == "ss.inv":
-        return guarded(lambda: fseq(Bij.simion_and_schmidt(Perm(pseq(a[0])), True)))
+        return guarded(lambda: fseq(Bij.simion_and_schmidt(P(pseq(a[0])), True)))
     if op == "ss.chk":
         return guarded(lambda: _ss_chk_impl(pseq(a[0]), False))
     if op == "ss.chkinv":
@@ -228,11 +279,11 @@ def impl(op, a):
             return "?"
         return guarded(f)
     if op.startswith("fam.") and op != "fam.all":
-        return guarded(lambda: fbool(getattr(PP, _FAMFN[op[4:]])(Perm(pseq(a[0])))))
+        return guarded(lambda: fbool(getattr(PP, _FAMFN[op[4:]])(P(pseq(a[0])))))
     if op == "fam.all":
-        return guarded(lambda: "".join(fbool(getattr(PP, _FAMFN[k])(Perm(pseq(a[0])))) for k in _FAMS))
+        return guarded(lambda: "".join(fbool(getattr(PP, _FAMFN[k])(P(pseq(a[0])))) for k in _FAMS))
     if op == "yt":
-        return guarded(lambda: fseqs(PP._perm_to_yt(Perm(pseq(a[0])))))
+        return guarded(lambda: fseqs(PP._perm_to_yt(P(pseq(a[0])))))
     if op == "dgroup":
         return guarded(lambda: fseqs(sorted(tuple(p) for p in dihedral_group(int(a[0])))))
     if op == "dgroup.len":
